@@ -1,2 +1,28 @@
-(* C17 -- theorems are being added *)
-From ZK Require Import Cl.
+(* C17 -- CL03 proofs and the openings they carry.  The property is VIOLATED by the code (finding F9, recorded in
+   known_findings.txt): the theorems below are the machine-checked form of the finding on the faithful model -- the
+   signature proof embeds Cv = {value, randomness} with value = v * g_0^randomness mod N, so v is recomputable. *)
+From ZK Require Import Cl ClArith ClSig ClMore.
+
+Theorem C17_spok_carries_opening_of_v :
+  forall CS sg ck pk bases msgs U ds p ds',
+  nisp5_gen CS sg ck pk bases msgs U ds = Ok (p, ds') ->
+  exists g0 gw, nthZ (ck_g ck) 0 = Ok g0 /\ pow_mod g0 (c_rand (sp_Cv p)) (ck_N ck) = Ok gw /\
+    c_value (sp_Cv p) = Z.rem (s_v sg * gw) (ck_N ck).
+Proof. exact spok_carries_opening_of_v. Qed.
+Check (C17_spok_carries_opening_of_v :
+  forall CS sg ck pk bases msgs U ds p ds',
+  nisp5_gen CS sg ck pk bases msgs U ds = Ok (p, ds') ->
+  exists g0 gw, nthZ (ck_g ck) 0 = Ok g0 /\ pow_mod g0 (c_rand (sp_Cv p)) (ck_N ck) = Ok gw /\
+    c_value (sp_Cv p) = Z.rem (s_v sg * gw) (ck_N ck)).
+Print Assumptions C17_spok_carries_opening_of_v.
+
+Theorem C17_commit_v_opens :
+  forall CS v ck ds c ds', commit_v CS v ck ds = Ok (c, ds') ->
+  exists g0 gw, nthZ (ck_g ck) 0 = Ok g0 /\ pow_mod g0 (c_rand c) (ck_N ck) = Ok gw /\
+    c_value c = Z.rem (v * gw) (ck_N ck).
+Proof. exact commit_v_opens. Qed.
+Check (C17_commit_v_opens :
+  forall CS v ck ds c ds', commit_v CS v ck ds = Ok (c, ds') ->
+  exists g0 gw, nthZ (ck_g ck) 0 = Ok g0 /\ pow_mod g0 (c_rand c) (ck_N ck) = Ok gw /\
+    c_value c = Z.rem (v * gw) (ck_N ck)).
+Print Assumptions C17_commit_v_opens.
